@@ -616,6 +616,125 @@ def prefilter_syllabic(ctx, shim, r, nfonts, per_font):
                          "non-trivial = the shaper inserted a glyph or a lookup substituted one")
 
 
+WOULD_APPLY_SCRIPTS = [   # (script, GSUB tags, consonants, RA, virama, pre-base matra, other matra)
+    ("Deva", ["dev2", "deva"], [0x0915, 0x0916, 0x0917, 0x092F], 0x0930, 0x094D, 0x093F, 0x0941),
+    ("Beng", ["bng2", "beng"], [0x0995, 0x0996, 0x09AC, 0x09AF], 0x09B0, 0x09CD, 0x09BF, 0x09C1),
+    ("Mlym", ["mlm2", "mlym"], [0x0D15, 0x0D16, 0x0D2F, 0x0D32], 0x0D30, 0x0D4D, 0x0D46, 0x0D41),
+    ("Telu", ["tel2", "telu"], [0x0C15, 0x0C16, 0x0C2F, 0x0C32], 0x0C30, 0x0C4D, 0x0C46, 0x0C41),
+    ("Khmr", ["khmr"], [0x1780, 0x1781, 0x1799, 0x179B], 0x179A, 0x17D2, 0x17C1, 0x17BB),
+]
+WOULD_APPLY_FEATURES = ["blwf", "pstf", "pref", "half", "rphf", "vatu", "abvf", "cjct"]
+
+
+def would_apply_recipe(r):
+    """a font of a syllabic shaper whose would_substitute-queried features (blwf / pstf / pref / half / rphf / vatu …) are Context or
+    ChainContext lookups of formats 1-3 with the Coverage table drawn INDEPENDENTLY of the class definitions / rule sets (strict
+    subset, disjoint, superset): the shapers classify consonants by asking `would_substitute`, whose lookup-level digest prefilter
+    is built from the coverages"""
+    script, tags, cons, ra, virama, prem, mat = r.choice(WOULD_APPLY_SCRIPTS)
+    chars = cons + [ra, virama, prem, mat, 0x25CC, 0x20]
+    cmap = {cp: 1 + i for i, cp in enumerate(chars)}
+    base_n = len(chars) + 1
+    n = base_n + 80
+    g = lambda cp: cmap[cp]
+    letters = [g(c) for c in cons] + [g(ra)]
+    fillers = [base_n + 64 + r.below(12) for _ in range(2)]      # glyph ids far from the letters (digest patterns differ)
+    lookups, feats = [], []
+    for tag in r.shuffle(list(WOULD_APPLY_FEATURES))[:r.range(1, 4)]:
+        target = r.choice(letters); alt = base_n + r.below(40)
+        single = len(lookups) + 1
+        first, second = r.choice([(g(virama), target), (target, g(virama))])
+        members = r.choice([[first], [first] + fillers[:1], [first] + letters[:2]])
+        cov = r.choice([fillers[:1], fillers, [x for x in members if x != first] or fillers[:1], members, members + fillers])
+        fmt = r.choice([2, 2, 2, 1, 3])
+        chain = r.chance(1, 3)
+        if fmt == 2:
+            cd = {x: 1 for x in members}; cd[second] = 2
+            st = {"format": 2, "coverage": sorted(set(cov)), ("input_classdef" if chain else "classdef"): cd,
+                  "classsets": [[], [{"input": [2], "lookups": [[1, single]]}], []]}
+            if chain:
+                st["classsets"][1][0].update({"backtrack": [], "lookahead": []})
+                st["backtrack_classdef"] = {}; st["lookahead_classdef"] = {}
+        elif fmt == 1:
+            cv = sorted(set(cov) | {first}) if r.chance(1, 2) else sorted(set(cov))
+            st = {"format": 1, "coverage": cv,
+                  "rulesets": [([dict({"input": [second], "lookups": [[1, single]]}, **({"backtrack": [], "lookahead": []} if chain else {}))]
+                                if x == first or r.chance(1, 2) else []) for x in cv]}
+        else:
+            st = {"format": 3, "coverages": [sorted(set(cov)), [second]], "lookups": [[1, single]]}
+            if chain: st.update({"input": st.pop("coverages"), "backtrack": [], "lookahead": []})
+        lookups.append({"type": 6 if chain else 5, "flag": 0, "subtables": [st]})
+        lookups.append({"type": 1, "flag": 0, "subtables": [{"format": 2, "coverage": [second], "subst": [alt]}]})
+        feats.append({"tag": tag, "lookups": [len(lookups) - 2]})
+    tag = r.choice(tags)
+    rec = {"num_glyphs": n, "cmap": cmap, "advances": [400 + 7 * i for i in range(n)],
+           "gsub": {"scripts": [{"tag": tag, "default": {"features": list(range(len(feats)))}, "langs": []}],
+                    "features": feats, "lookups": lookups}}
+    return rec, script, cons, ra, virama, prem, mat
+
+
+WOULD_APPLY_WITNESS = {   # D53: Context format 2 whose coverage excludes the virama although the virama's class has a rule set
+    "num_glyphs": 80, "cmap": {0x0915: 1, 0x0930: 2, 0x094D: 3, 0x093F: 4, 0x25CC: 6, 0x20: 7}, "advances": [500] * 80,
+    "gsub": {"scripts": [{"tag": "dev2", "default": {"features": [0]}, "langs": []}],
+             "features": [{"tag": "blwf", "lookups": [0]}],
+             "lookups": [{"type": 5, "flag": 0, "subtables": [{"format": 2, "coverage": [70], "classdef": {3: 1, 70: 1, 2: 2},
+                                                               "classsets": [[], [{"input": [2], "lookups": [[1, 1]]}], []]}]},
+                         {"type": 1, "flag": 0, "subtables": [{"format": 2, "coverage": [2], "subst": [5]}]}]}}
+
+
+def prefilter_would_apply(ctx, shim, r, nfonts, per_font):
+    """prefilter on vs off where the shapers ASK the font (`would_substitute`): the answer must not depend on the digest"""
+    groups, meta = [], []
+    fonts = [(WOULD_APPLY_WITNESS, "Deva", [0x0915], 0x0930, 0x094D, 0x093F, 0x093F)]
+    for _ in range(nfonts):
+        fonts.append(would_apply_recipe(r))
+    kinds = {}
+    for i, (rec, script, cons, ra, virama, prem, mat) in enumerate(fonts):
+        try:
+            hexf = fontbuild.hexfont(rec)
+        except fontbuild.FontBuildError:
+            continue
+        fid = f"WA{i}"
+        reqs = []
+        if i == 0:
+            reqs.append(f"shape {fid} l Deva - 0 0 - - - 915:0,94d:1,930:2,93f:3")
+        for _ in range(per_font if i else 0):
+            t = []
+            for _s in range(r.range(1, 3)):
+                t.append(r.choice(cons + [ra]))
+                for _k in range(r.below(3)):
+                    t += [virama, r.choice(cons + [ra, ra])]
+                if r.chance(1, 2): t.append(r.choice([prem, mat]))
+                if r.chance(1, 6): t.append(0x20)
+            txt = ",".join(f"{cp:x}:{j}" for j, cp in enumerate(t))
+            reqs.append(f"shape {fid} {r.choice(['l', 'l', 'r', 't'])} {script} - {r.choice([0, 3, 0x43])} {r.below(2)} - - - {txt}")
+        for lk in rec["gsub"]["lookups"]:
+            if lk["type"] in (5, 6):
+                k = f"type{lk['type']}-format{lk['subtables'][0].get('format')}"
+                kinds[k] = kinds.get(k, 0) + 1
+        groups.append([f"font {fid} {hexf}", "prefilter on"] + reqs + ["prefilter off"] + reqs + ["prefilter on"])
+        meta.append((reqs, rec))
+    outs = vlib.run_groups(shim, groups, timeout=900)
+    total = nontriv = bad = 0
+    for (reqs, rec), o, gl in zip(meta, outs, groups):
+        n = len(reqs)
+        on = o[2:2 + n]; off = o[3 + n:3 + 2 * n]
+        for q, x, y in zip(reqs, on, off):
+            total += 1
+            if x.startswith("ok") and len(x.split()) > 2: nontriv += 1
+            if x != y:
+                bad += 1
+                if bad <= 3:
+                    ctx.violation("shaping differs with the digest prefilter on vs off (a shaper's would_substitute query)",
+                                  {"stage": "search", "stream": "prefilter-on-off", "generator": "would-apply", "font_line": gl[0], "request": q,
+                                   "font_recipe": rec, "with_prefilter": x, "without_prefilter": y})
+    ctx.note_search("prefilter-would-apply", total, nontriv, deviations=bad, contextual_lookups=kinds,
+                    rule="fonts of the Indic (old / new spec) and Khmer shapers whose would_substitute-queried features (blwf, pstf, pref, half, rphf, "
+                         "vatu, abvf, cjct) are Context / ChainContext lookups of formats 1-3 with the Coverage table drawn independently of the class "
+                         "definitions and rule sets (subset / disjoint / superset), x consonant-virama-consonant-matra texts; plus the permanent "
+                         "witness of D53; prefilter on vs off must agree")
+
+
 def run(ctx):
     ctx.assumptions += [
         "the theorems are about the Lean model of set_digest.rs, CoverageExt::collect and hb_buffer_t::digest; "
@@ -644,6 +763,7 @@ def run(ctx):
     prefilter_search(ctx, shim, ctx.rng("prefilter"), ctx.budget(250, 2128), ctx.budget(2, 8))
     prefilter_generated(ctx, shim, ctx.rng("prefilter-gen"), ctx.budget(300, 5000), 6)
     prefilter_syllabic(ctx, shim, ctx.rng("prefilter-syl"), ctx.budget(300, 5000), 8)
+    prefilter_would_apply(ctx, shim, ctx.rng("prefilter-wa"), ctx.budget(150, 3000), 8)
 
 
 def replay(ctx, rp):
